@@ -35,7 +35,14 @@ let fuel = nat_of_int 400000
 let run_line line =
     let i = String.index line '\t' in
     let inp = String.sub line 0 i and prog = String.sub line (i + 1) (String.length line - i - 1) in
-    if inp = "N" then begin
+    if inp = "F" then begin
+      (* F <which> <sign> <mantissa> <exponent> : the model's rounding of the double  sign * mantissa * 2^exponent *)
+      (match String.split_on_char ' ' prog with
+       | [k; sg; m; e] ->
+           let f = S754_finite ((sg = "-"), pos_of_bz (BZ.of_string m), z_of_bz (BZ.of_string e)) in
+           (match rounding (z_of_bz (BZ.of_string k)) f with Some n -> print_endline (BZ.to_string (bz_of_z n)) | None -> print_endline "NONE")
+       | _ -> print_endline "BADLINE")
+    end else if inp = "N" then begin
       (* N <lo> <hi> : normalize every code point of the range, one line each *)
       (match String.split_on_char ' ' prog with
        | [lo; hi] -> for c = int_of_string lo to int_of_string hi do print_endline (pstr (normalize (n_of_int c))) done
